@@ -357,6 +357,11 @@ impl RobotBody {
                     }
                 }
 
+                // With collision checking switched off nothing collides (as in `collides`)
+                if self.safety.mode == CheckMode::NoCheck {
+                    return Some(new_joints);
+                }
+
                 // Generate the full joint poses for collision checking
                 let joint_poses = kinematics.forward_with_joint_poses(&new_joints);
                 let joint_poses_f32: [Isometry3<f32>; 6] =
